@@ -36,6 +36,11 @@ CASES = [
     ("indexed-identifier", "x [ <0> ] = <1> ;", "INDEXED_IDENTIFIER", [("IndexedIdentifier", "identifier", ("x", "x"))]),
     ("gatecall", "g ( <0> ) q ;", "GATE_CALL_EXPR", [("GateCallExpr", "identifier", ("g", "g"))]),
     ("call", "f ( <0> , <1> ) ;", "CALL_EXPR", [("CallExpr", "identifier", ("f", "f"))]),
+    # postfix operators nest to the left: the OUTER index applies to the inner indexed expression
+    ("double-index-call", "f ( <0> ) [ <1> ] [ <2> ] ;", "INDEX_EXPR", [("shape", ["INDEX_EXPR", "INDEX_EXPR", "CALL_EXPR"], None)]),
+    ("double-index-paren", "( <0> ) [ <1> ] [ <2> ] ;", "INDEX_EXPR", [("shape", ["INDEX_EXPR", "INDEX_EXPR", "PAREN_EXPR"], None)]),
+    ("double-index-cast", "int ( <0> ) [ <1> ] [ <2> ] ;", "INDEX_EXPR", [("shape", ["INDEX_EXPR", "INDEX_EXPR", "CAST_EXPRESSION"], None)]),
+    ("call-of-index", "f ( <0> ) [ <1> ] ;", "INDEX_EXPR", [("shape", ["INDEX_EXPR", "CALL_EXPR"], None)]),
     ("gate-def", "gate g ( s , t ) u , v , w { }", "GATE", [("Gate", "angle_params", ("within", "s", "t", "u")), ("Gate", "qubit_params", ("within", "u", "w", "t"))]),
     ("gate-def-noparams", "gate g u , v { }", "GATE", [("Gate", "angle_params", None), ("Gate", "qubit_params", ("within", "u", "v", "g"))]),
 ]
@@ -102,6 +107,22 @@ class H(semh.Base):
         if node is None:
             raise Violation(f"`{name}`: the tree has no {nodekind} node")
         for ty, method, role in checks:
+            if ty == "shape":
+                chain = []; cur = node
+                while isinstance(cur, NodeV) and len(chain) < len(method):
+                    chain.append(kit.names[cur.kind])
+                    cur = next((c_ for c_ in cur.children if isinstance(c_, NodeV)), None)
+                ex.obligations += 1
+                if chain != method:
+                    raise Violation(f"`{name}`: the expression nests as {chain} (outermost first), the postfix operators of the source nest as {method}")
+                # each INDEX_EXPR holds exactly one index operator
+                cur = node
+                while isinstance(cur, NodeV) and kit.names[cur.kind] == "INDEX_EXPR":
+                    nops = sum(1 for c_ in cur.children if isinstance(c_, NodeV) and kit.names[c_.kind] == "INDEX_OPERATOR")
+                    if nops != 1:
+                        raise Violation(f"`{name}`: an INDEX_EXPR node holds {nops} index operators")
+                    cur = next((c_ for c_ in cur.children if isinstance(c_, NodeV)), None)
+                continue
             f = globals()["method"](kit, ty, method)
             if f is None:
                 raise Unsupported(f"accessor {ty}::{method} not found in the MIR")
